@@ -150,3 +150,13 @@ def status_reads(A):
             if m:
                 flags.add(m.group(1))
     return flags
+
+
+def opmap(v, cond=None):
+    """origin -> union of operator classes over all atoms of v (flattened)."""
+    m = {}
+    for (o, ops) in flat_atoms(v):
+        if cond is not None and not cond(o, ops):
+            continue
+        m[o] = frozenset(m.get(o, frozenset()) | ops)
+    return m
